@@ -7,19 +7,19 @@ EXPLANATION = 'functions that maintain numrecs enforced against: never decreases
 MODEL = ['stubs/mpi_model.c']
 COMMON = ['src/drivers/common/error_mpi2nc.c', 'src/drivers/common/ncx.m4']
 
-def jobs(tier, ws):
+def jobs(tier, ws, prop='C05'):
     js = []
-    js.append(Job('C05/ncmpio_write_numrecs', 'C05', ['src/drivers/ncmpio/ncmpio_sync.c'] + COMMON, 'C11_write_numrecs.c',
+    js.append(Job(prop + '/ncmpio_write_numrecs', prop, ['src/drivers/ncmpio/ncmpio_sync.c'] + COMMON, 'C11_write_numrecs.c',
                   enforce='ncmpio_write_numrecs', defines=['-DENFORCE_ncmpio_write_numrecs'], extra_src=MODEL,
                   canaries=['wrote_ok', 'failure_reported', 'eintoverflow', 'nothing_to_do'], unwind=26, kind='proof'))
-    js.append(Job('C05/ncmpio_sync_numrecs', 'C05', ['src/drivers/ncmpio/ncmpio_sync.c'] + COMMON, 'C05_sync_numrecs.c',
+    js.append(Job(prop + '/ncmpio_sync_numrecs', prop, ['src/drivers/ncmpio/ncmpio_sync.c'] + COMMON, 'C05_sync_numrecs.c',
                   enforce='ncmpio_sync_numrecs', replace=['ncmpio_write_numrecs'], defines=['-DENFORCE_ncmpio_sync_numrecs'], extra_src=MODEL,
                   canaries=['synced_multi', 'wrote', 'eindefine', 'eperm', 'failure_reported'], unwind=26, kind='proof'))
     GP = ['src/drivers/ncmpio/ncmpio_getput.m4'] + COMMON
     callees = ['ncmpii_buftype_decode', 'ncmpii_need_convert', 'ncmpii_create_imaptype', 'ncmpii_in_swapn', 'ncmpio_pack_xbuf',
                'ncmpii_nc2mpitype', 'ncmpio_filetype_create_vars', 'ncmpio_file_set_view', 'ncmpio_read_write', 'ncmpio_write_numrecs']
     for st0 in ([0, 1, 3] if tier == 'quick' else [0, 1, 2, 3, 7, 1000]):
-        js.append(Job('C05/put_varm/stride%d' % st0, 'C05', GP, 'C05_put_varm.c', enforce='ncmpio_getput.c:put_varm', replace=callees, extra_src=MODEL,
+        js.append(Job(prop + '/put_varm/stride%d' % st0, prop, GP, 'C05_put_varm.c', enforce='ncmpio_getput.c:put_varm', replace=callees, extra_src=MODEL,
                       defines=['-DSTRIDE0=%d' % st0],
                       canaries=['coll_grew', 'indep_grew', 'erange', 'swapped_in_place', 'failure_reported', 'zero_req'], unwind=26, kind='proof', object_bits=11, timeout=900,
                       assumptions=['put_varm: callee contracts of getput_callees.h are assumed unless listed as enforced; instances: ndims=2, record-dimension stride enumerated, no intra-node aggregation (my_aggr<0)']))
